@@ -19,7 +19,8 @@ package main
 //              cubesPerUnit 1/2/4/10, cutoff 0 / ±¼ cell; MarchParallel vs March;
 //   history    2–4 AddField* calls on ONE canvas and attribute with OVERLAPPING domains (same shape twice, shifted
 //              overlapping shapes, a small field inside a big one): after EACH call the canvas cells (read with
-//              reflect/unsafe) and the sample multisets of each parallel variant are compared with the sequential canvas,
+//              reflect/unsafe; all attributes) and the sample multisets of each parallel variant are compared with the
+//              sequential canvas; also fields with TWO Float1 attributes (one job per (attribute, block)),
 //              and the whole history is replayed by the Lean job model (`c10.accumulate`, read-modify-write `+=`).
 // Oracle lines: c10.holds.same_tri_multiset (theorem predicate: equal multisets), c10.holds.same_output (sample multisets,
 // canvas cells).
@@ -47,7 +48,10 @@ type c10Shape struct {
 	cx, cy, cz float64
 	r          float64
 	ax, ay, az float64 // axis scales (asymmetry)
+	extra      bool    // the field carries a second Float1 attribute ("c10aux" = 2·f + 1) besides the position attribute
 }
+
+const c10Aux = "c10aux"
 
 type c10Sample struct {
 	pos string
@@ -106,14 +110,15 @@ func (sh c10Shape) field(s *c10Sampler, h float64) marching.Field {
 	}
 	// domain: the shape plus one cell of margin on each side
 	ext := vector3.New((sh.r/sh.ax+h)*2, (sh.r/sh.ay+h)*2, (sh.r/sh.az+h)*2)
-	return marching.Field{
-		Domain:          geometry.NewAABB(vector3.New(sh.cx, sh.cy, sh.cz), ext),
-		Float1Functions: map[string]sample.Vec3ToFloat{modeling.PositionAttribute: s.wrap(f)},
+	fns := map[string]sample.Vec3ToFloat{modeling.PositionAttribute: s.wrap(f)}
+	if sh.extra {
+		fns[c10Aux] = s.wrap(func(p vector3.Float64) float64 { return 2*f(p) + 1 })
 	}
+	return marching.Field{Domain: geometry.NewAABB(vector3.New(sh.cx, sh.cy, sh.cz), ext), Float1Functions: fns}
 }
 
 // c10Dump reads the cells of the canvas (unexported state, via reflect/unsafe): one token "cx,cy,cz:index:value" per
-// non-zero cell of the position attribute, sorted.
+// non-zero cell of the position attribute ("attr|cx,cy,cz:index:value" for any other attribute), sorted.
 func c10Dump(cv *marching.MarchingCanvas) []string {
 	v := reflect.ValueOf(cv).Elem()
 	fd := v.FieldByName("float1Data")
@@ -121,8 +126,9 @@ func c10Dump(cv *marching.MarchingCanvas) []string {
 	var out []string
 	it := v.FieldByName("sections").MapRange()
 	for it.Next() {
+		prefix := ""
 		if it.Key().String() != modeling.PositionAttribute {
-			continue
+			prefix = it.Key().String() + "|"
 		}
 		pit := it.Value().Elem().FieldByName("positions").MapRange()
 		for pit.Next() {
@@ -130,7 +136,7 @@ func c10Dump(cv *marching.MarchingCanvas) []string {
 			cx, cy, cz := k.FieldByName("X").Int(), k.FieldByName("Y").Int(), k.FieldByName("Z").Int()
 			for idx, val := range data[pit.Value().Int()] {
 				if val != 0 {
-					out = append(out, fmt.Sprintf("%d,%d,%d:%d:%s", cx, cy, cz, idx, F(val)))
+					out = append(out, fmt.Sprintf("%s%d,%d,%d:%d:%s", prefix, cx, cy, cz, idx, F(val)))
 				}
 			}
 		}
@@ -192,10 +198,12 @@ const c10MaxTokens = 7000
 func (c *Ctx) c10Canvas(label string, cpu float64, shapes []c10Shape, cutoff float64, opt c10Opts) {
 	h := 1 / cpu
 	exact := cutoff <= 0
+	twoAttr := false
 	for _, sh := range shapes {
 		if sh.kind != "l1" {
 			exact = false
 		}
+		twoAttr = twoAttr || sh.extra
 	}
 	type variant struct {
 		name string
@@ -268,7 +276,7 @@ func (c *Ctx) c10Canvas(label string, cpu float64, shapes []c10Shape, cutoff flo
 			seqCanvas = cv
 			blocks := map[string]bool{}
 			for _, s := range seqDumps[len(shapes)-1] {
-				blocks[s[:strings.Index(s, ":")]] = true
+				blocks[s[strings.Index(s, "|")+1:strings.Index(s, ":")]] = true
 			}
 			if opt.cells {
 				c.Note(fmt.Sprintf("blocks-with-data=%d", len(blocks)))
@@ -284,7 +292,7 @@ func (c *Ctx) c10Canvas(label string, cpu float64, shapes []c10Shape, cutoff flo
 			}
 			c.Note(fmt.Sprintf("tris<=%d", 1<<bitsLen(len(seqTris))))
 		}
-		if opt.cells && ok && len(modelArgs) < 2_000_000 {
+		if opt.cells && ok && !twoAttr && len(modelArgs) < 2_000_000 {
 			// the Lean job model (Model/ParCanvas.lean, `+=` as read-modify-write) replays the whole history
 			c.Emit("c10.accumulate", fmt.Sprintf("%s %d%s", v.name, len(shapes), modelArgs), c10Join("none", seqOrOwn(vi, seqDumps[len(shapes)-1], cv)))
 		}
@@ -363,7 +371,7 @@ func runC10M(c *Ctx) {
 		}
 		return sh
 	}
-	nPlace, nSeam, nHist := (c.N+1)/2, c.N, (c.N+1)/2
+	nPlace, nSeam, nHist := (c.N+1)/2, c.N, (c.N+1)/2+1 // every history kind in every run
 	first := c.Rng.Intn(len(places))
 	for k := 0; k < nPlace; k++ {
 		p, cpu := places[(first+k)%len(places)], cpus[c.Rng.Intn(len(cpus))]
@@ -433,7 +441,7 @@ func runC10M(c *Ctx) {
 	}
 
 	// accumulation histories: overlapping domains on one canvas and attribute
-	firstHist := c.Rng.Intn(3)
+	firstHist := c.Rng.Intn(4)
 	for j := 0; j < nHist; j++ {
 		p, cpu := places[c.Rng.Intn(len(places))], cpus[c.Rng.Intn(len(cpus))]
 		kind := "l1"
@@ -446,7 +454,7 @@ func runC10M(c *Ctx) {
 		}
 		var shapes []c10Shape
 		var how string
-		switch (firstHist + j) % 3 {
+		switch (firstHist + j) % 4 {
 		case 0: // the same shape two to four times
 			how = "same-shape-repeated"
 			for t := 0; t < 2+c.Rng.Intn(3); t++ {
@@ -462,6 +470,12 @@ func runC10M(c *Ctx) {
 				s2.cz += float64(c.Rng.Intn(3)-1) / cpu
 				shapes = append(shapes, s2)
 			}
+		case 3: // fields with TWO Float1 attributes: one job per (attribute, block); overlapping second call
+			how = "two-attributes"
+			base.extra = true
+			s2 := base
+			s2.cx += 1 / cpu
+			shapes = []c10Shape{base, s2}
 		default: // a small field inside a big one, then the big one again
 			how = "small-inside-big"
 			small := base
